@@ -160,6 +160,15 @@ Definition Spec (i : input) (o : obs) : Prop :=
                              else sums = [])
              (leaf_infos (stack i)) (o_sums o).
 
+(* MultiTestResult() without members cannot be constructed (IndexError) *)
+Fixpoint wf_stack (a : adapter) : bool :=
+  match a with
+  | ATR _ _ | AE2S => true
+  | AMulti l => match l with [] => false | _ => forallb wf_stack l end
+  | ATFR x | AE2O x | ADeco _ x => wf_stack x
+  end.
+Definition wf (i : input) : Prop := wf_stack (stack i) = true.
+
 (* ---------- known finding F18 ----------
    Which underlying results the stack, as configured, really stops at an error / failure / unexpected
    success: a result's own failfast, or an ExtendedToOriginalDecorator above it (explicit, or the one
